@@ -38,7 +38,10 @@ type c10Set struct {
 }
 
 type c10Cfg struct {
-	Ups   []string
+	// SharedURL: every upstream has the same addr URL (a resolver name) and is told apart only by
+	// its dial_addr, as in "tls://dns.example" reached through two different addresses.
+	SharedURL bool
+	Ups       []string
 	Sets  []c10Set
 	Rules []c10Rule
 }
@@ -46,7 +49,7 @@ type c10Cfg struct {
 var c10Suffixes = []string{"a.test", "b.test", "x.a.test", "y.x.a.test", "c.example", "test", "d.c.example"}
 
 func c10Gen(r *gen.R) *c10Cfg {
-	cfg := &c10Cfg{}
+	cfg := &c10Cfg{SharedURL: r.P(0.3)}
 	for i := 0; i < r.Range(1, 5); i++ {
 		cfg.Ups = append(cfg.Ups, fmt.Sprintf("up%d", i))
 	}
@@ -141,6 +144,10 @@ func (cfg *c10Cfg) yaml(dir string, upAddr map[string]string, listenUDP, listenT
 	var y strings.Builder
 	y.WriteString("upstreams:\n")
 	for _, u := range cfg.Ups {
+		if cfg.SharedURL {
+			fmt.Fprintf(&y, "  - tag: %s\n    addr: \"udp://resolver.c10.example\"\n    dial_addr: \"%s\"\n", u, upAddr[u])
+			continue
+		}
 		fmt.Fprintf(&y, "  - tag: %s\n    addr: \"udp://%s\"\n", u, upAddr[u])
 	}
 	if len(cfg.Sets) > 0 {
@@ -275,7 +282,10 @@ func c10Good(c *Ctx, idx int) {
 			probes = append(probes, pr)
 		}
 	}
-	shape := fmt.Sprint(cfg.Rules)
+	shape := fmt.Sprint(cfg.Rules, cfg.SharedURL)
+	if cfg.SharedURL {
+		c.Ev.Count("good_configs_shared_url_distinct_dial_addr", 1)
+	}
 	for _, pr := range probes {
 		wire := mkQuery(uint16(r.Intn(65536)), pr.name, pr.qtype, pr.class, r.Bool())
 		var resp []byte
@@ -384,7 +394,7 @@ func c10Outcome(rcode int, up string) string {
 	return "reject"
 }
 
-var c10BadKinds = []string{"unknown-upstream-tag", "unknown-domain-tag", "dup-upstream-tag", "dup-domain-tag",
+var c10BadKinds = []string{"unknown-upstream-tag", "unknown-domain-tag", "dup-upstream-tag", "dup-domain-tag", "dup-domain-tag-large-files", "dup-upstream-tag-distinct-addr",
 	"unknown-upstream-tag-in-reject-rule", "unknown-upstream-tag-in-reverse-rule", "unknown-upstream-tag-no-domain", "unknown-upstream-tag-later-rule",
 	"unknown-domain-tag-in-reject-rule", "unknown-domain-tag-later-rule", "unknown-domain-tag-with-reverse", "dup-upstream-tag-nonadjacent", "dup-domain-tag-nonadjacent",
 	"unknown-key-top", "unknown-key-server", "unknown-key-upstream-tls", "unknown-key-rule", "unknown-key-cache", "unknown-key-limiter-client", "unknown-key-upstream", "unknown-key-domain-set"}
@@ -439,6 +449,18 @@ func c10Bad(c *Ctx, idx int) {
 		sets += fmt.Sprintf("  - tag: s1\n    files: [\"%s\"]\n  - tag: s0\n    files: [\"%s\"]\n", setFile, setFile)
 	case "dup-upstream-tag":
 		upstreams += fmt.Sprintf("  - tag: up0\n    addr: \"udp://%s\"\n", up.Addr["udp"])
+	case "dup-domain-tag-large-files":
+		// two sets with the same tag whose files take a while to load
+		var big strings.Builder
+		for k := 0; k < 40000; k++ {
+			fmt.Fprintf(&big, "domain:h%d.bulk%d.example\n", k, k%97)
+		}
+		f1, f2 := filepath.Join(dir, "big1.txt"), filepath.Join(dir, "big2.txt")
+		os.WriteFile(f1, []byte(big.String()), 0644)
+		os.WriteFile(f2, []byte(big.String()+"domain:other.example\n"), 0644)
+		sets = fmt.Sprintf("domain_sets:\n  - tag: s0\n    files: [\"%s\", \"%s\"]\n  - tag: s0\n    files: [\"%s\"]\n", setFile, f1, f2)
+	case "dup-upstream-tag-distinct-addr":
+		upstreams += "  - tag: up0\n    addr: \"tcp://127.0.0.1:1\"\n"
 	case "dup-domain-tag":
 		sets += fmt.Sprintf("  - tag: s0\n    files: [\"%s\"]\n", setFile)
 	case "unknown-key-top":
